@@ -28,15 +28,21 @@ META = {
             "the extractor computes and Lean re-checks), lalr_step_progress / lalr_terminates / lalr_fuel_irrelevant (a measure - tokens left, then sum of state weights + rank of the top state, also certificates - strictly decreases "
             "with every round: the loop terminates WITHOUT fuel, `parse` is a total function of the token list), lalr_error_position_in_input (a syntax error names a token of the input or its end), lalr_parse_total; "
             "tied to the real parser by stream op c18.lalr: real Scanner + real parser.Parse with goyacc's own debug trace switched on against the model - same verdict, same offending token, same sequence of (production, state) reductions. "
+            "THE SEMANTIC ACTIONS' PANIC SITES are covered by a TYPING of the semantic values (Props/C18LalrActions.lean): extract/lalr (mode actions; go/types over lib/parser, parser.y for the productions) regenerates, for every production, the dynamic Go types its action "
+            "can leave in yyVAL (composite literal / constructor result type, nil, copy of $k, unknown), every type assertion without ok and every method call on a yyDollar[k] value (25 + 1 sites), every index / slice expression with its length guard, and what the actions call; "
+            "the least solution 'types of a symbol' is a certificate Lean re-checks (closed under every source of every action; every assertion satisfied by every type of its operand's symbol, nil only where the action excluded it: lalr_action_assertions_typed), "
+            "and typed_stack_invariant proves for ALL token lists, all fuel and EVERY choice the actions make (an oracle) that each stack value has a type of the symbol its state was entered on - from table facts inside lalr_tables_wf: a reduction by p pops states entered on exactly the symbols of p "
+            "(the right-hand sides are a certificate checked against yyChk for every state that can lie at that depth), the goto pushes a state entered on p's nonterminal; hence lalr_actions_never_panic and parse_never_panics (driver + actions: accept or a syntax error inside the input, nothing else). "
             "PARTIAL: the rest of the grammar layer (other statements, set operators, sub-selects, INTO / WITH / FOR UPDATE / FETCH / LATERAL, BETWEEN / IN / NOT LIKE / ANY / ALL / row values, functions; the BODIES of the semantic actions, that the goyacc tables implement the grammar of parser.y, the other String() methods) is not modelled - "
             "parser.Parse totality, error positions, print/parse fixpoint and evaluation agreement are validated by correspondence only "
             "(corpus + grammar-aware mutation + generated queries, all four prepared x ansi-quotes modes)",
     "design_ref": "DESIGN.md section 5, C18",
     "note": "trusted: Lean kernel (axioms propext, Classical.choice, Quot.sound only), harness + driver; unicode.IsLetter/IsDigit are parameters of the "
-            "theorems (driver instance: ASCII + a fixed rune pool, which the harness stays inside and checks against Go's tables); "
+            "theorems (they hold for every instance); the driver instance is Scanner.unicodeClasses = the toolchain's Letter / Nd tables (Model/Unicode.lean, regenerated by extract/unitables in C06), the scanner's white space is proved equal to unicode.IsSpace of those tables (C06.scanner_isSpace_is_unicode), and every generated text is inside the model (no rune pool restriction any more); "
             "known printer defects are reported under stable law names print_parse_fixpoint:<defect>; "
             "LALR part: trusted are extract/lalr (go/ast over parser.go: integer literals of the tables, go/printer text of the loop; fails closed on unknown tables / constants / statement forms), "
-            "the bodies of the 526 semantic actions beyond their classification (25 of them use a type assertion without ok, 2 index a string / slice: these can still panic if the grammar hands them another type - searched by the totality stream only), "
+            "of the 526 semantic actions: that the dynamic type of a composite literal / constructor call is its static type (go/types), the guard analysis of index sites (an index x[c] counts as guarded under `c < len(x)` in the same action), "
+            "the reviewed pins of Ref/LalrActions.lean (one unguarded index: Literal[0] of a PLACEHOLDER token, non-empty by the scanner; the callees outside lib/parser: append, len, strconv.Atoi / ParseInt, strings.Split, value.NewIntegerFromString / NewString), the values the actions build (not modelled: only their types), "
             "and goyacc's table construction (that the tables implement parser.y); the certificates shipped with the tables (lower-neighbour relation, depths, weights, ranks, low-bit table) are NOT trusted: Lean re-checks them",
     "technique": "Lean 4 machine-checked proof over a hand-written model + differential correspondence with the Go implementation; "
                  "grammar layer: differential/metamorphic testing of the real parser only",
@@ -46,10 +52,11 @@ META = {
 def run(run):
     q = run.tier == "quick"
     run.assumptions += [
-        "unicode.IsLetter / unicode.IsDigit are parameters (Classes) of every scanner theorem; scan_quoted_string / scan_quoted_ident assume the quote rune is not a letter or digit (true in Go's tables; checked by the harness for the pool)",
+        "unicode.IsLetter / unicode.IsDigit are parameters (Classes) of every scanner theorem; scan_quoted_string / scan_quoted_ident assume the quote rune is not a letter or digit (true in Go's tables; the driver instance is the toolchain's tables, where it holds: C06.isLetter_isDigit_disjoint and the tables themselves)",
         "unicode.IsSpace is the fixed White_Space set; strings.EqualFold / strings.ToUpper against ASCII keywords are modelled with the two non-ASCII runes that fold / upper-case into ASCII (U+017F, U+212A / U+0131, U+017F)",
         "strconv.ParseInt / ParseFloat on the digit strings scanNumber builds are modelled by exact integer arithmetic (range check 2^1024 - 2^970); digit runs sent to the model are at most 400 runes",
         "operator-expression fragment: the Lean parser is precedence climbing with yacc's shift/reduce resolution (token level vs pending rule level, %left reduce / %right shift / %nonassoc error); that this equals what goyacc's LALR tables do on the fragment is validated by stream op c18.opx (accept/reject, tree shape, printed tokens), not proved",
+        "semantic actions: which of its possible results an action produces is an oracle (any function of the round): the typing theorems hold for every choice; a result the action cannot produce ends the typed run as impossibleAction (not an execution of the program)",
         "goyacc driver: the model runs over token CODES (what Scanner.Scan returns; (*Lexer).Lex's rewriting of the Uncategorized code is modelled); semantic values are dropped, so the semantic actions are outside the model beyond their classification; Go ints are unbounded integers (the stack depth is bounded by memory, not by the driver)",
         "the rest of the grammar layer (semantic actions, statements and clauses as trees) is outside the Lean model: parse_total:* and print_parse_* are established by correspondence only (partial)",
         "print_parse_eval_agree is checked only for generated constant SELECT queries (no tables, whitelisted deterministic functions); texts are never executed otherwise",
@@ -58,7 +65,8 @@ def run(run):
     run.regen("astprint", ["go", "run", "-C", "extract/astprint", "."], "Csvq/Gen/AstPrint.lean")
     run.regen("lalr-tables", ["go", "run", "-C", "extract/lalr", ".", "tables"], "Csvq/Gen/LalrTables.lean")
     run.regen("lalr-driver", ["go", "run", "-C", "extract/lalr", ".", "driver"], "Csvq/Gen/LalrDriver.lean")
-    run.obligations_for(["Csvq.Props.C18", "Csvq.Props.C18Lalr"])
+    run.regen("lalr-actions", ["go", "run", "-C", "extract/lalr", ".", "actions"], "Csvq/Gen/LalrActions.lean")
+    run.obligations_for(["Csvq.Props.C18", "Csvq.Props.C18Lalr", "Csvq.Props.C18LalrActions"])
     run.stream("c18", 30000 if q else 400000)
     if not q:
         for k in range(1, 5):
@@ -66,7 +74,7 @@ def run(run):
         pass  # leanchecker now runs for every property in the thorough tier (vt.core.obligations_for)
     return run.finish(
         level="proof",
-        rule="(a) rune strings over-weighting quotes, backslashes, escape letters, control runes, CR/LF, NUL, non-ASCII pool runes and invalid UTF-8 through all six escape functions and the real Scanner (4 modes), "
+        rule="(a) rune strings over-weighting quotes, backslashes, escape letters, control runes, CR/LF, NUL, non-ASCII runes (letters, decimal digits, spaces and near misses of many scripts, incl. four-byte ones) and invalid UTF-8 through all six escape functions and the real Scanner (4 modes), "
              "plus a scanner dictionary of operators, comment openers, numbers at the int64 / float64 range edges, variables, placeholders, URLs, constants, external commands; "
              "every text is first run through Scanner.Scan / parser.Parse / String() in child processes (re-exec of the stream binary, chunks of 1500, per-input deadline, heap limit, RLIMIT_AS): an input a child does not finish is confirmed alone and reported as law parser_does_not_terminate; the corpus (harness/cmd/c18/corpus.txt: one witness per known finding, one per repaired defect, external-command statements with open quotes / ${ at end of input) runs first on every seed; "
              "(b) parser.Parse under recover on SQL from parser_test.go and docs code blocks, token-level mutations (delete/duplicate/swap/inject/replace/truncate/splice/byte damage) and generated queries, all four modes; "
@@ -76,11 +84,12 @@ def run(run):
              "goyacc driver (op c18.lalr): every text of (b) in its mode, plus token-level damage with the whole vocabulary of the grammar (every keyword, literal class and punctuation: delete / repeat / swap / replace / insert / shuffle a window / cut short, and pure token soup) - the real scanner's token codes go to the model, the real parser's verdict, offending token and reduction trace are compared; stats lalr:accept / lalr:syntax-error, lalr.productions_reduced of lalr.productions_total; "
              "operator expressions: random trees of the fragment written down without added parentheses (depth <= 5) plus damaged token lists, real parser + String() against the model's parse / print; non-trivial = distinct (mode, token-kind sequence, outcome / statement types) or (rune classes, length band) or unary tree shape",
         trusted_base=BASE_TRUST + [
-            "unicode.IsLetter/IsDigit tables (parameters of the theorems; driver instance = ASCII + fixed pool, checked against Go at harness start)",
+            "unicode.IsLetter/IsDigit tables (parameters of the theorems; driver instance = the toolchain's own tables, regenerated on every C06 run and compared rune by rune with package unicode by stream c06.uclass)",
             "extract/precedence (reads parser.y as text; refuses unknown declarations, production shapes and actions)",
             "extract/astprint (go/ast over ast.go and over the Go code of the actions of parser.y; refuses statement forms outside its subset; conditions are the lexically enclosing ones, early returns appear as return parts)",
             "extract/lalr (go/ast over parser.go / lexer.go / scanner.go; refuses unknown tables, constants, statement forms in actions)",
-            "bodies of the semantic actions of parser.y, goyacc's table construction (tables = grammar), String() methods other than the unary operators (validated by correspondence only)",
+            "extract/lalr actions: go/types over lib/parser (static type of an assigned expression = dynamic type of the value; implements-relation), the length-guard analysis of index sites, the pinned lists of Ref/LalrActions.lean",
+            "the values (not the types) the semantic actions build, goyacc's table construction (tables = grammar), String() methods other than the unary operators (validated by correspondence only)",
         ],
-        checker_cmd="cd /verif/lean && lake build Csvq.Props.C18 Csvq.Props.C18Lalr && lake env lean <#print axioms for every theorem>",
+        checker_cmd="cd /verif/lean && lake build Csvq.Props.C18 Csvq.Props.C18Lalr Csvq.Props.C18LalrActions && lake env lean <#print axioms for every theorem>",
     )
